@@ -181,4 +181,15 @@ def action_problems(pkg):
             out.append(("action-without", a, what))
         for a in sorted(sset - acts):
             out.append(("not-an-action", a, what))
+    # the same statement operationally: the library finds the request and the response schema of every member
+    # (it derives the file from the action; a file that exists but is not found is as good as missing)
+    from harness import verdict as V
+    ver = "1.6" if pkg == "v16" else "2.0.1"
+    for member in m["enums"].Action:
+        for mt, what in (("Call", "request"), ("CallResult", "response")):
+            for a in (member, member.value):
+                v = V.impl_verdict(ver, mt, a, {})
+                if v[0] == "crash" or (v[0] == "reject" and v[1] == "NotImplemented"):
+                    out.append(("action-schema-not-found", member.value, what, v[1][:60]))
+                    break
     return out
